@@ -293,6 +293,34 @@ impl PanicInfo {
     }
 }
 
+// ---------------------------------------------------------------- per-case watchdog
+
+use std::sync::atomic::{AtomicU64, Ordering};
+
+static CASE_START_MS: AtomicU64 = AtomicU64::new(0);
+static CASE_G: AtomicU64 = AtomicU64::new(0);
+
+fn now_ms() -> u64 {
+    std::time::SystemTime::now().duration_since(std::time::UNIX_EPOCH).map(|d| d.as_millis() as u64).unwrap_or(0)
+}
+
+/// A case that runs far longer than any terminating case is journaled as `hang` and the
+/// worker exits with code 97; the supervisor confirms it by replaying the case alone.
+pub fn start_watchdog(log_path: String) {
+    let limit_ms: u64 = std::env::var("OQ3_CASE_TIMEOUT_S").ok().and_then(|v| v.parse().ok()).unwrap_or(20) * 1000;
+    std::thread::spawn(move || loop {
+        std::thread::sleep(std::time::Duration::from_millis(250));
+        let st = CASE_START_MS.load(Ordering::Relaxed);
+        if st != 0 && now_ms().saturating_sub(st) > limit_ms {
+            let g = CASE_G.load(Ordering::Relaxed);
+            if let Ok(mut f) = std::fs::OpenOptions::new().create(true).append(true).open(&log_path) {
+                let _ = writeln!(f, "\n{{\"t\":\"hang\",\"g\":{g}}}");
+            }
+            std::process::exit(97);
+        }
+    });
+}
+
 // ---------------------------------------------------------------- run loop
 
 pub struct RunArgs {
@@ -316,6 +344,7 @@ pub fn run_property(prop: &dyn Property, args: &RunArgs) -> std::io::Result<()> 
     let path = format!("{}/shard_{}.jsonl", args.out_dir, args.shard);
     let file = std::fs::OpenOptions::new().create(true).append(true).open(&path)?;
     let mut log = BufWriter::new(file);
+    start_watchdog(path.clone());
     writeln!(
         log,
         "{{\"t\":\"start\",\"shard\":{},\"nshards\":{},\"total\":{},\"start\":{}}}",
@@ -371,7 +400,10 @@ pub fn run_property(prop: &dyn Property, args: &RunArgs) -> std::io::Result<()> 
             since_batch += 1;
             let input = (st.gen)(idx);
             obs.clear_case();
+            CASE_G.store(g, Ordering::Relaxed);
+            CASE_START_MS.store(now_ms().max(1), Ordering::Relaxed);
             let r = guard(|| prop.check(&input, &mut obs));
+            CASE_START_MS.store(0, Ordering::Relaxed);
             evaluations += (obs.records.len() as u64).max(1);
             per_stream[si] += 1;
             if let Err(p) = r {
